@@ -54,7 +54,7 @@ def judge_c06(ctx, funcs, segs, outs, meta):
                               f"cached {sstr} rejects args={step['args']} kwargs={step['kwargs']} with {c['exc']}: {c['msg'][:120]} although the plain function accepts it", desc)
                 return
             fp = repr(p["v"])
-            key = (step["f"], step.get("holder") if f["kind"] == "method" else None)
+            key = (step["f"], step.get("holder") if f["kind"] in ("method", "classmethod") else None)
             known = model.setdefault(key, {})
             want = 0 if fp in known else 1
             form = (repr(step["args"]), repr(sorted(step["kwargs"].items())))
